@@ -843,7 +843,21 @@ func isLenOfAny(fc *flowCtx, v, s ssa.Value) bool {
 		return false
 	}
 	a := c.Call.Args[0]
-	return sameValue(a, s) || sameSliceSource(a, s) || fc.samePathLoad(a, s) || cellSame(a, s)
+	if sameValue(a, s) || sameSliceSource(a, s) || fc.samePathLoad(a, s) || cellSame(a, s) {
+		return true
+	}
+	// s = make([]T, len(a)): len(s) == len(a) (slices are never shortened in place)
+	if ms, ok := peel(s).(*ssa.MakeSlice); ok {
+		if lc, ok := peelConv(ms.Len).(*ssa.Call); ok {
+			if b, ok := lc.Call.Value.(*ssa.Builtin); ok && b.Name() == "len" {
+				a2 := lc.Call.Args[0]
+				if sameValue(a, a2) || sameSliceSource(a, a2) || fc.samePathLoad(a, a2) || cellSame(a, a2) {
+					return true
+				}
+			}
+		}
+	}
+	return false
 }
 
 // cellSame: loads of the same local/captured variable cell that is stored exactly once (parameters captured by closures).
